@@ -45,6 +45,20 @@ def check(ctx, cfg):
     r10(ctx, cfg)
     r11(ctx, cfg)
     r12(ctx, cfg)
+    r_overlay(ctx, cfg)
+    r_bank(ctx, cfg)
+
+
+def r_bank(ctx, cfg):
+    """premise shared with C09 (the bank moves exactly what it is told to), under this property's id: a delegation moves the amount into the staking pool with a `BankMsg::Send`, a payout moves it back the same way"""
+    from rules import C09
+    C09.ledger_premise(ctx, cfg, "C14.R13")
+
+
+def r_overlay(ctx, cfg):
+    """premise shared with C06 (the transaction overlay is faithful), under this property's id: stake entries are updated and removed in the same transaction (`update_rewards` writes an entry that `update_stake` removes right after); a removal that does not reach the store leaves a ghost delegation"""
+    from rules import C06
+    C06.overlay_premise(ctx, cfg, "C14.R12")
 
 
 def r7(ctx, cfg):
